@@ -17,7 +17,7 @@ def harnesses():
             t = ("quick", "thorough") if (n <= 3 and m <= 3) else ("thorough",)
             hs.append(H(M + "c31_lev_%d_%d" % (n, m),
                         "|act|=%d, |exp|=%d, all element values (u16); minimality against every script of <= 8 operations chosen by the solver" % (n, m),
-                        F, tiers=t, timeout=2400,
+                        F, tiers=t, timeout=2400 if len(t) == 2 else 1500,
                         assumes=["lengths are concrete per harness (symbolic Vec lengths exhaust CBMC memory); contents symbolic"]))
     hs.append(H(M + "c31_twin_must_fail", "vacuity twin", F, expect="fail"))
     return hs
